@@ -356,6 +356,31 @@ fn normal_form<T: NormalForm>(x: &T) -> T {
     x.clone().normal()
 }
 
+/// The libraries' process-wide colour switches in their neutral position (some read NO_COLOR
+/// lazily, once): rendering must not depend on the caller's environment.
+fn neutral_libraries() {
+    crossterm::style::force_color_output(true);
+    yansi::enable();
+}
+
+/// When set, every *conversion* runs while the environment says "no colour" in every convention
+/// and the libraries' own switches are off; rendering happens afterwards with everything back in
+/// the neutral position. A conversion is a function of the style alone. (Single-threaded use only.)
+static HOSTILE_CONVERSION: std::sync::atomic::AtomicBool = std::sync::atomic::AtomicBool::new(false);
+
+fn convert<T>(f: impl FnOnce() -> T) -> T {
+    if !HOSTILE_CONVERSION.load(std::sync::atomic::Ordering::Relaxed) {
+        return f();
+    }
+    let r = rt::with_env(rt::HOSTILE_ENVS[0].1, || {
+        yansi::disable();
+        crossterm::style::force_color_output(false);
+        f()
+    });
+    neutral_libraries();
+    r
+}
+
 /// Returns Ok(render layer applied?)
 fn check(a: Adapter, m: &MStyle) -> Result<bool, String> {
     check_with(a, m, true)
@@ -386,7 +411,7 @@ fn check_alt(a: Adapter, m: &MStyle, exclude_known: bool, alt: u8) -> Result<boo
     let want = projection(a, m, alt);
     macro_rules! layer {
         ($conv:expr, $expect:expr, $render:expr, $skip_render:expr) => {{
-            let got = $conv;
+            let got = convert(|| $conv);
             let exp = $expect;
             // Value level: the converted value must be *equivalent* to the one built from the harness's
             // own tables through the library's public constructors - equal in normal form, or rendered
@@ -503,6 +528,7 @@ fn check_syntect(fg: (u8, u8, u8, u8), bg: (u8, u8, u8, u8), font: u8) -> Result
 
 fn run(args: &Args, rep: &mut Report) {
     let tier = args.tier;
+    neutral_libraries();
     rep.assume("what each target library can express is an explicit table in this check (projection()), taken from the public API of the library versions in the lock file: crossterm - the eight classic effects, the four further underline kinds and an underline colour; termcolor - bold/dim/italic/underline/strikethrough, brightness either dropped or kept through the one `intense` flag where that alters no hue; ansi_term - a bright colour either as hue (+ bold for a foreground) or exactly as Fixed(8+k)");
     rep.assume("styles with a background, no foreground and one of the eight classic effects are decided at value level only for owo-colors: the pinned owo-colors 4.0.0 renders them without the ';' separator (open known finding F26, replayed separately)");
     let colors = all_colors();
@@ -635,6 +661,38 @@ fn run(args: &Args, rep: &mut Report) {
     });
     rep.add("slot-interactions", true, "8 x 8 x 8 colour assignments to (fg, bg, underline) incl. unset and equal colours x 4 effect sets x 5 adapters", accs);
 
+    // single-threaded: the environment and the libraries' switches are process-wide
+    {
+        let mut acc = Acc::new();
+        HOSTILE_CONVERSION.store(true, std::sync::atomic::Ordering::Relaxed);
+        let some = [None, Some(MColor::Ansi(1)), Some(MColor::Ansi(12)), Some(MColor::Idx(200)), Some(MColor::Rgb(1, 2, 3))];
+        'hostile: for a in ADAPTERS {
+            for fg in some {
+                for bg in some {
+                    for effects in [0u16, sgr::BOLD, sgr::ITALIC | sgr::UNDERLINE, sgr::STRIKETHROUGH | sgr::DIMMED, sgr::INVERT] {
+                        let m = MStyle { fg, bg, ul: if effects == sgr::BOLD { Some(MColor::Idx(9)) } else { None }, effects };
+                        acc.eval();
+                        match rt::guarded(|| check(a, &m)) {
+                            Ok(_) => {
+                                if !m.is_plain() {
+                                    acc.nontrivial_distinct();
+                                }
+                                acc.sample(|| json!({"adapter": format!("{:?}", a), "style": m.describe()}));
+                            }
+                            Err(msg) => {
+                                acc.fail("conversion-under-hostile-ambient-state", json!({"adapter": a, "style": m}), format!("converted while NO_COLOR=1 / CLICOLOR=0 / TERM=dumb were set and yansi / crossterm colour output was switched off, rendered after everything was switched back: {msg}"));
+                                break 'hostile;
+                            }
+                        }
+                    }
+                }
+            }
+        }
+        HOSTILE_CONVERSION.store(false, std::sync::atomic::Ordering::Relaxed);
+        neutral_libraries();
+        rep.add("conversion-under-hostile-ambient-state", true, "5 adapters x 5 x 5 colour pairs x 5 effect sets: converted under a no-colour environment with the libraries' colour switches off, rendered in the neutral state (a conversion depends on the style alone)", vec![acc]);
+    }
+
     rep.add(
         "random-styles",
         false,
@@ -676,6 +734,15 @@ fn run(args: &Args, rep: &mut Report) {
 }
 
 fn replay(sub: &str, case: &Value) -> Result<(), String> {
+    neutral_libraries();
+    if sub == "conversion-under-hostile-ambient-state" {
+        let m: MStyle = serde_json::from_value(case["style"].clone()).map_err(|e| format!("bad case: {e}"))?;
+        let a: Adapter = serde_json::from_value(case["adapter"].clone()).map_err(|e| format!("bad case: {e}"))?;
+        HOSTILE_CONVERSION.store(true, std::sync::atomic::Ordering::Relaxed);
+        let r = check(a, &m).map(|_| ());
+        HOSTILE_CONVERSION.store(false, std::sync::atomic::Ordering::Relaxed);
+        return r;
+    }
     if let Some(s) = case.get("syntect") {
         let q = |v: &Value| {
             let a: Vec<u8> = v.as_array().map(|a| a.iter().map(|x| x.as_u64().unwrap_or(0) as u8).collect()).unwrap_or_default();
